@@ -13,7 +13,7 @@ use std::panic::{catch_unwind, AssertUnwindSafe};
 
 pub fn text_of(l: &Value) -> String {
     let sep = l["sep"].as_str().unwrap_or(" ");
-    let mb = |t: &str| t.replace("<MB2>", "é").replace("<MB3>", "日").replace("<NUL>", "\u{0}");
+    let mb = |t: &str| t.replace("<MB2>", "é").replace("<MB3>", "日").replace("<NUL>", "\u{0}").replace("<NL>", "\n").replace("<TAB>", "\t");
     let toks: Vec<String> = l["toks"].as_array().unwrap().iter().map(|t| mb(t.as_str().unwrap())).collect();
     let body = toks.join(sep);
     let n = l["n"].as_u64().unwrap_or(0) as usize;
@@ -32,18 +32,19 @@ pub fn text_of(l: &Value) -> String {
 pub const ENTRIES: [&str; 10] = ["GRLParser::parse_rules", "GRLParser::parse_with_modules", "QueryParser::parse", "ExpressionParser::parse",
     "GRLQueryParser::parse", "parse_aggregate_query", "DisjunctionParser::parse", "NestedQueryParser::parse", "parse_stream_pattern", "evaluate_expression"];
 
-pub fn run_entry(k: usize, text: &str, facts: &Facts) {
+/// runs entry point k on the text; true when it accepted the whole input (used only to validate the seed texts)
+pub fn run_entry(k: usize, text: &str, facts: &Facts) -> bool {
     match k {
-        0 => { let _ = GRLParser::parse_rules(text); }
-        1 => { let _ = GRLParser::parse_with_modules(text); }
-        2 => { let _ = QueryParser::parse(text); }
-        3 => { let _ = ExpressionParser::parse(text); }
-        4 => { let _ = GRLQueryParser::parse(text); let _ = GRLQueryParser::parse_queries(text); }
-        5 => { let _ = parse_aggregate_query(text); }
-        6 => { let _ = DisjunctionParser::parse(text); }
-        7 => { let _ = NestedQueryParser::parse(text); }
-        8 => { let _ = parse_stream_pattern(text); }
-        _ => { let _ = rust_rule_engine::expression::evaluate_expression(text, facts); }
+        0 => GRLParser::parse_rules(text).map(|r| !r.is_empty()).unwrap_or(false),
+        1 => GRLParser::parse_with_modules(text).map(|r| !r.rules.is_empty()).unwrap_or(false),
+        2 => QueryParser::parse(text).is_ok(),
+        3 => ExpressionParser::parse(text).is_ok(),
+        4 => { let a = GRLQueryParser::parse(text).is_ok(); let _ = GRLQueryParser::parse_queries(text); a }
+        5 => parse_aggregate_query(text).is_ok(),
+        6 => DisjunctionParser::parse(text).is_some(),
+        7 => { let _ = NestedQueryParser::parse(text); false }
+        8 => parse_stream_pattern(text).map(|(rest, _)| rest.trim().is_empty()).unwrap_or(false),
+        _ => rust_rule_engine::expression::evaluate_expression(text, facts).is_ok(),
     }
 }
 
@@ -66,11 +67,19 @@ pub fn cmd_textchild(_args: &Args) -> i32 {
             o.flush().unwrap();
         }
         let mut verdict = "ok".to_string();
+        let mut accepted = vec![];
         for k in 0..ENTRIES.len() {
-            if let Err(e) = catch_unwind(AssertUnwindSafe(|| run_entry(k, &text, &facts))) {
-                verdict = format!("panic {} :: {}", ENTRIES[k], panic_msg(e).replace('\n', " "));
-                break;
+            match catch_unwind(AssertUnwindSafe(|| run_entry(k, &text, &facts))) {
+                Err(e) => {
+                    verdict = format!("panic {} :: {}", ENTRIES[k], panic_msg(e).replace('\n', " "));
+                    break;
+                }
+                Ok(true) => accepted.push(k.to_string()),
+                Ok(false) => {}
             }
+        }
+        if verdict == "ok" {
+            verdict = format!("ok {}", accepted.join(","));
         }
         let mut o = out.lock();
         writeln!(o, "{} {}", i, verdict).unwrap();
